@@ -15,6 +15,8 @@ package composite
 //@   ensures [C03] err != nil ==> m == nil
 
 //@ func parentController.syncRevisions(pc, parent, observedChildren, relatedObjects) (res, err)
+//@   requires noNilChildren(observedChildren)
+//@   requires noNilChildren(relatedObjects)
 //@   requires validRM0(pc.customize)
 //@   requires factoryInv(pc.customize.dynInformers)
 //@   requires validRMInf(pc.customize)
@@ -31,6 +33,8 @@ package composite
 //@   invariant loop 2 [C09]: factoryInv(pc.customize.dynInformers)
 //@   invariant loop 2 [C09]: validRMInf(pc.customize)
 //@   invariant loop 2 [C09]: validPC(pc)
+//@   invariant loop 1 [C09]: noNilChildren(observedChildren)
+//@   invariant loop 2 [C09]: noNilChildren(observedChildren)
 //@   at applyPatch(d, pt, fp) [C17,C09]: deepfresh(d)
 //@   at parentController.manageRevisions(p, par, obs, des) [C09]: called(parentController.syncRollingUpdate) && sruErr == nil && par == parent
 //@   ensures [C09] err != nil ==> res == nil
@@ -53,6 +57,7 @@ package composite
 // the per-revision hook call (run as a fork/join goroutine): a missing answer is an error of that revision, never a nil dereference
 //@ func parentController.syncRevisions$1(pr) ()
 //@   requires-assumed pr != nil && pr.parent != nil
+//@   requires noNilChildren(*observedChildren)
 //@   requires *pc != nil && validPC(*pc) && *parent != nil
 //@   requires validRM0((*pc).customize)
 //@   requires factoryInv((*pc).customize.dynInformers)
@@ -63,6 +68,7 @@ package composite
 //@   ensures [C09] factoryInv((*pc).customize.dynInformers)
 //@   ensures [C09] validRMInf((*pc).customize)
 //@   ensures [C09] *pc == old(*pc) && validPC(*pc)
+//@   ensures [C09] noNilChildren(*observedChildren)
 
 //@ func parentController.makeSelector(pc, parent, extraMatchLabels) (sel, err)
 //@   requires validPC(pc) && parent != nil
@@ -108,6 +114,9 @@ package composite
 
 //@ func parentController.callHook(pc, parent, observedChildren, related) (resp, err)
 //@   requires validPC(pc) && parent != nil
+//@   // the maps sent to the hook hold no nil objects (claimChildren/getChildren and GetRelatedObjects guarantee it)
+//@   requires noNilChildren(observedChildren)
+//@   requires noNilChildren(related)
 //@   writes-assumed fresh
 //@   safety C13
 //@   let noMatch = pc.parentSelector != nil && !matchesLabelsOf(pc.parentSelector, parent)
